@@ -52,6 +52,8 @@ type pkgResult struct {
 	Notes    []string           `json:"notes"`
 	Groups   []string           `json:"groups"` // group id -> description
 	Single   []bool             `json:"single"` // group id -> at most one thread
+	Pos      []string           `json:"positions"` // node index -> file:line ("" when none)
+	Instrs   []string           `json:"instrs"`    // node index -> instruction text
 	nodes    []node
 	entryIDs []int
 }
@@ -72,7 +74,11 @@ type fnCtx struct {
 	group   int
 	alias   map[string]map[string]bool // local identifier -> fields it may alias
 	ctor    bool                       // walking a constructor (its own nodes are discarded)
+	funcs   map[string]*ast.FuncLit    // local identifier -> function literal bound to it (x := func(..) {..})
+	loopDepth int                      // loops/switches open in the callers (inlined methods)
 }
+
+func (fc *fnCtx) inLoop() bool { return fc.loopDepth+len(fc.breaks) > 0 }
 
 type builder struct {
 	fset         *token.FileSet
@@ -217,7 +223,7 @@ func (b *builder) expr(e ast.Expr, frontier []int, fc *fnCtx) []int {
 	case *ast.FuncLit:
 		// a function value not called here: treated as possibly executed at this point, any number of times
 		head := b.emit("ISkip", frontier, x)
-		sub := &fnCtx{recv: fc.recv, stack: fc.stack, entry: fc.entry, labels: map[string]int{}, alias: fc.alias, ctor: fc.ctor}
+		sub := &fnCtx{recv: fc.recv, stack: fc.stack, entry: fc.entry, labels: map[string]int{}, alias: fc.alias, ctor: fc.ctor, funcs: fc.funcs}
 		out := b.block(x.Body, head, sub)
 		out = append(out, sub.returns...)
 		b.link(out, head[0])
@@ -283,7 +289,8 @@ func (b *builder) call(call *ast.CallExpr, frontier []int, fc *fnCtx, isGo bool)
 	async := asyncAPIs[calleeName]
 	// event handlers of one subscription and the two functions of a periodic job run sequentially:
 	// one single-instance group per such call
-	singleGroup := calleeName == "Events" || calleeName == "SchedulePeriodicJob"
+	// (a registration inside a loop creates several subscriptions / jobs: not single)
+	singleGroup := (calleeName == "Events" || calleeName == "SchedulePeriodicJob") && !fc.inLoop()
 	grp := -1
 	// arguments
 	for _, a := range call.Args {
@@ -291,6 +298,14 @@ func (b *builder) call(call *ast.CallExpr, frontier []int, fc *fnCtx, isGo bool)
 		case *ast.FuncLit:
 			if async {
 				g := b.addEntryG(fmt.Sprintf("%s@%s", calleeName, b.pos(av)), av.Body, fc.recv, "", grp, singleGroup)
+				if singleGroup {
+					grp = g
+				}
+				continue
+			}
+		case *ast.Ident:
+			if lit, ok := fc.funcs[av.Name]; ok && async {
+				g := b.addEntryG(fmt.Sprintf("%s@%s", calleeName, b.pos(lit)), lit.Body, fc.recv, "", grp, singleGroup)
 				if singleGroup {
 					grp = g
 				}
@@ -313,7 +328,7 @@ func (b *builder) call(call *ast.CallExpr, frontier []int, fc *fnCtx, isGo bool)
 	case *ast.FuncLit:
 		if isGo {
 			// a goroutine started once by the constructor (not in a loop) runs as a single thread
-			b.addEntryG(fmt.Sprintf("go@%s", b.pos(f)), f.Body, fc.recv, "", -1, fc.ctor && len(fc.breaks) == 0)
+			b.addEntryG(fmt.Sprintf("go@%s", b.pos(f)), f.Body, fc.recv, "", -1, fc.ctor && !fc.inLoop())
 			return frontier
 		}
 		return b.inlineBody(f.Body, frontier, fc, "")
@@ -321,7 +336,7 @@ func (b *builder) call(call *ast.CallExpr, frontier []int, fc *fnCtx, isGo bool)
 		if id, ok := f.X.(*ast.Ident); ok && fc.recv[id.Name] {
 			if m, isM := b.methods[f.Sel.Name]; isM {
 				if isGo {
-					b.addEntryG(f.Sel.Name, nil, nil, f.Sel.Name, -1, fc.ctor && len(fc.breaks) == 0)
+					b.addEntryG(f.Sel.Name, nil, nil, f.Sel.Name, -1, fc.ctor && !fc.inLoop())
 					return frontier
 				}
 				return b.inlineMethod(m, frontier, fc)
@@ -358,12 +373,12 @@ func (b *builder) inlineMethod(m *ast.FuncDecl, frontier []int, fc *fnCtx) []int
 		b.note("inlining depth 8 reached at %s", m.Name.Name)
 		return frontier
 	}
-	sub := &fnCtx{recv: map[string]bool{recvName(m): true}, stack: append(append([]string{}, fc.stack...), m.Name.Name), entry: fc.entry, labels: map[string]int{}, alias: map[string]map[string]bool{}}
+	sub := &fnCtx{recv: map[string]bool{recvName(m): true}, stack: append(append([]string{}, fc.stack...), m.Name.Name), entry: fc.entry, labels: map[string]int{}, alias: map[string]map[string]bool{}, ctor: fc.ctor, loopDepth: fc.loopDepth + len(fc.breaks)}
 	return b.finishFn(m.Body, frontier, sub)
 }
 
 func (b *builder) inlineBody(body *ast.BlockStmt, frontier []int, fc *fnCtx, _ string) []int {
-	sub := &fnCtx{recv: fc.recv, stack: fc.stack, entry: fc.entry, labels: map[string]int{}, alias: fc.alias, ctor: fc.ctor}
+	sub := &fnCtx{recv: fc.recv, stack: fc.stack, entry: fc.entry, labels: map[string]int{}, alias: fc.alias, ctor: fc.ctor, funcs: fc.funcs}
 	return b.finishFn(body, frontier, sub)
 }
 
@@ -503,6 +518,19 @@ func (b *builder) stmtL(s ast.Stmt, frontier []int, fc *fnCtx, label string) []i
 	case *ast.AssignStmt:
 		for _, r := range x.Rhs {
 			frontier = b.expr(r, frontier, fc)
+		}
+		// x := func(..) {..}: remember the literal, so that handing x to an asynchronous API registers an entry
+		if len(x.Lhs) == len(x.Rhs) {
+			for i, l := range x.Lhs {
+				if id, ok := l.(*ast.Ident); ok {
+					if lit, ok := x.Rhs[i].(*ast.FuncLit); ok {
+						if fc.funcs == nil {
+							fc.funcs = map[string]*ast.FuncLit{}
+						}
+						fc.funcs[id.Name] = lit
+					}
+				}
+			}
 		}
 		// aliases: x := recv.f / recv.f[k] / *recv.f (no type information: any such local may share memory with f)
 		for i, l := range x.Lhs {
@@ -765,8 +793,12 @@ func (b *builder) addEntryG(name string, body *ast.BlockStmt, recv map[string]bo
 				// a second registration that may run concurrently with the first makes the group multi-instance
 				// (the default registration of an exported method, weakExported, does not: handlers and periodic
 				// jobs that happen to be exported are only called by their event stream / scheduler goroutine)
-				if !single && g < 0 && !b.weakExported {
+				if !b.weakExported {
 					b.res.Single[pe.group] = false
+					if g >= 0 && g != pe.group {
+						// the entry now also runs on the thread of group g, concurrently with its first registration
+						b.res.Single[g] = false
+					}
 				}
 				return pe.group
 			}
@@ -973,12 +1005,12 @@ func analysePackage(repo, dir, typeName string) (*pkgResult, error) {
 				body = pe.body
 				b.res.nodes[start[0]].pos = b.pos(pe.body)
 			}
-			// Whatever leaves the function ends the thread.  Every way out (fall-through end and every
-			// return, after the deferred calls) is linked to one explicit exit node: a frontier node that
-			// also has a fall-through successor (`mu.Lock(); if c { return }; mu.Unlock()`, or a function
-			// ending in a loop) would otherwise never be terminal, and a lock leaked on that path would
-			// escape the balance check (needed by C12).
-			b.emit("ISkip", b.finishFn(body, start, fc), nil)
+			// whatever leaves the function ends the thread: every exit (fall-through end and each return, after its
+			// deferred calls) leads to ONE exit node without successor, so that an early return taken from a node that
+			// also continues elsewhere is a path of its own (its lock set must be empty at the exit)
+			if out := b.finishFn(body, start, fc); len(out) > 0 {
+				b.emit("ISkip", dedup(out), nil)
+			}
 			res.Entries = append(res.Entries, pe.name)
 			res.entryIDs = append(res.entryIDs, start[0])
 		}
@@ -994,6 +1026,10 @@ func analysePackage(repo, dir, typeName string) (*pkgResult, error) {
 	res.Notes = nil
 	build()
 	res.Nodes = len(res.nodes)
+	for _, n := range res.nodes {
+		res.Pos = append(res.Pos, n.pos)
+		res.Instrs = append(res.Instrs, n.instr)
+	}
 	for i, n := range res.nodes {
 		if n.acc != nil {
 			res.Accesses[fmt.Sprint(i)] = *n.acc
